@@ -156,6 +156,18 @@ PROBES.append(Probe('diamond', _p_diamond,
                     masks=['shape:diamond', 'shape:diamond_tail', 'shape:wide_diamond'], shared_masks=['multi_inherit']))
 
 
+# ---- the supertype order of t contradicts the supertype order of one of its supertypes (never drawn by the random generator:
+# vf/c18_gen.py keeps to schemas whose declared orders Python can linearise; the permutations of 'full diamond named at once' in
+# vf/c18_matrix.py show the same finding)
+def _p_contradiction():
+    return M.Schema('pb_contra', [], [_ent('a'), _ent('b', ['a']), _ent('c', ['a']), _ent('d', ['b', 'c']), _ent('t', ['a', 'c', 'b', 'd'])])
+
+
+PROBES.append(Probe('supertypes c, b named against d SUBTYPE OF (b, c)', _p_contradiction,
+                    keys=['import|several supertypes, two declared in the opposite order of the supertype list of another|'
+                          'TypeError (no consistent method resolution order)']))
+
+
 # ================================================================================================================
 # fixed coverage cases (no finding attached): what the quick tier must see whatever the seed draws
 KW_HARD_KEY = 'compile|other Python keyword as entity in class statement|SyntaxError'
